@@ -69,6 +69,13 @@ class C03(Check):
                              ("setupcfg-multiline", "setup.cfg")):
             exps.append(dict(base, kind="fixed:unwritable:" + mname, include=["pixee:python/url-sandbox"], unwritable=[fname],
                              world_spec={"files": [{"path": "pkg/a.py", "snippets": [sec], "layout": {}}, {"path": fname, "manifest": names[mname]}]}))
+        setup_src = ('import pickle\nfrom setuptools import setup\n\n\ndef load(f):\n    return pickle.load(f)\n\n\ndef dump(o, f):\n    pickle.dump(o, f)\n\n\n'
+                     'setup(\n    name="x",\n    install_requires=[\n        "requests",\n    ],\n)\n')
+        exps.append(dict(base, kind="fixed:setup-py-source-and-manifest", include=["pixee:python/harden-pickle-load"],
+                         world_spec={"files": [{"path": "setup.py", "raw": {"t": setup_src}}]}))
+        exps.append(dict(base, kind="fixed:setup-py-source-and-manifest", include=["pixee:python/fix-mutable-params", "pixee:python/harden-pickle-load", "pixee:python/remove-unnecessary-f-str"],
+                         world_spec={"files": [{"path": "setup.py", "raw": {"t": setup_src + "\n\ndef g(x=[]):\n    return f'y'\n"}},
+                                               {"path": "pkg/a.py", "snippets": [fstr], "layout": {}}]}))
         exps.append(dict(base, kind="fixed:eol-cr", include=["pixee:python/remove-unnecessary-f-str"],
                          world_spec={"files": [{"path": "pkg/a.py", "snippets": [fstr], "layout": {"eol": "cr"}}]}))
         return exps
@@ -136,11 +143,13 @@ class C03(Check):
                 p = cs.get("path")
                 named.add(p)
                 cls = input_class(exp, p)
-                ws = by_cell.pop((ci, p), [])
-                if len(ws) != 1:
-                    add("changeset-without-single-write", f"{cid}:{cls}", {"codemod": cid, "path": p, "writes": len(ws)})
+                # the k-th changeset a codemod lists for a path answers the k-th write of that codemod to that path (one codemod
+                # may write a file twice: setup.py rewritten as a source file, then updated as the dependency manifest)
+                ws = by_cell.get((ci, p), [])
+                if not ws:
+                    add("changeset-without-single-write", f"{cid}:{cls}", {"codemod": cid, "path": p, "writes": 0})
                     continue
-                w = ws[0]
+                w = ws.pop(0)
                 before = dec(w["before"]) if w["before"] is not None else b""
                 after = dec(w["after"]) if w["after"] is not None else b""
                 if before == after:
@@ -167,6 +176,8 @@ class C03(Check):
         outcomes["_checked"] = checked
         # write events not explained by a changeset
         for (ci, p), ws in sorted(by_cell.items()):
+            if not ws:
+                continue
             cid = o["codemod_ids"][ci] if 0 <= ci < len(o["codemod_ids"]) else "?"
             add("write-without-changeset", f"{cid}:{input_class(exp, p)}", {"codemod": cid, "path": p, "writes": len(ws)})
         # untouched <=> no changeset
